@@ -531,6 +531,7 @@ class Popen2IO:
         self._read = getattr(infile, "buffer", infile).read
         self._write = getattr(outfile, "buffer", outfile).write
         self.execmodel = execmodel
+        self._writelock = execmodel.Lock()
 
     def read(self, numbytes: int) -> bytes:
         """Read exactly 'numbytes' bytes from the pipe."""
@@ -546,8 +547,11 @@ class Popen2IO:
     def write(self, data: bytes) -> None:
         """Write out all data bytes."""
         assert isinstance(data, bytes)
-        self._write(data)
-        self.outfile.flush()
+        # one writer at a time: greenlets of a gevent/eventlet worker would
+        # otherwise re-enter the buffered writer while it waits for the pipe
+        with self._writelock:
+            self._write(data)
+            self.outfile.flush()
 
     def close_read(self) -> None:
         self.infile.close()
